@@ -24,7 +24,8 @@ type Env struct {
 	u      *Unit
 	st     *State
 	old    *State
-	lookup func(name string) (TV, bool)
+	cur    *State // inside old(): the state of the program point (local variables keep their current value)
+	lookup func(e *Env, name string) (TV, bool)
 	bound  map[string]boundVar
 	pkg    *types.Package
 	qctr   *int
@@ -197,7 +198,7 @@ func (e *Env) tr(x Expr) TV {
 			return TV{T: e.u.ghostInit(x.Name, srt), Ty: ty}
 		}
 		if e.lookup != nil {
-			if tv, ok := e.lookup(x.Name); ok {
+			if tv, ok := e.lookup(e, x.Name); ok {
 				return tv
 			}
 		}
@@ -229,6 +230,9 @@ func (e *Env) tr(x Expr) TV {
 		}
 		n := *e
 		n.st = e.old
+		if e.cur == nil {
+			n.cur = e.st
+		}
 		return n.tr(x.X)
 	case *ECond:
 		c := e.tr(x.C)
